@@ -146,7 +146,8 @@ class Gen:
                              '@bert-e create_pull_requests', '@bert-e create_integration_branches',
                              '@bert-e no_octopus', '@bert-e help', '@bert-e status', 'nice work',
                              '@bert-e after_pull_request=%d' % r.randint(1, 4), '@bert-e bypass_jira_check',
-                             '@bert-e bypass_author_approval bypass_leader_approval'])
+                             '@bert-e bypass_author_approval bypass_leader_approval',
+                             '@bert-e bypass_build_status=False', '/bypass_build_status=OFF'])
             user = ADMIN if 'bypass' in text and r.random() < 0.8 else r.choice([AUTHOR, ADMIN, PEER])
             if text == '/approve':
                 user = AUTHOR
